@@ -10,6 +10,7 @@ CONSTANTS
   BaseAtIH = TRUE
   Alias = FALSE
   MarksDurable = TRUE
+  SeedDataFromHeader = FALSE
   Rec = TRUE
 INVARIANTS WmSound InclBounds Dump
 CHECK_DEADLOCK FALSE
